@@ -44,6 +44,11 @@ def ev(f, e, env, locals_=None, depth=0):
         tv = tf(e)
         if tv is not None:
             return wrap(tv, t)
+    tf2 = env.get("__termfn2__")      # as __termfn__, but receives the environment in force (locals included)
+    if tf2 is not None:
+        tv = tf2(e, env)
+        if tv is not None:
+            return wrap(tv, t)
     if k == "MemberExpr" and e.get("isfield") and c and env.get("__db__") is not None:
         # bit-field / member of a record-valued term
         base = ev(f, c[0], env, locals_, depth + 1)
@@ -58,6 +63,10 @@ def ev(f, e, env, locals_=None, depth=0):
     if k in ("ParenExpr", "ExprWithCleanups", "MaterializeTemporaryExpr", "CXXBindTemporaryExpr", "ConstantExpr"):
         return ev(f, c[0], env, locals_, depth + 1)
     if k in ("ImplicitCastExpr", "CStyleCastExpr", "CXXStaticCastExpr", "CXXFunctionalCastExpr"):
+        if "v" in e and c and strip(c[0])["k"] == "DeclRefExpr" and strip(c[0]).get("var") not in env:
+            # a constant the front end already folded (static const member, constexpr): the cast node carries its value
+            v = e["v"]
+            return int(v) if isinstance(v, str) else v
         v = ev(f, c[0], env, locals_, depth + 1)
         return wrap(v, t)
     if "v" in e and k not in ("DeclRefExpr",):
@@ -138,6 +147,22 @@ def ev(f, e, env, locals_=None, depth=0):
         return ev(f, c[1], env, locals_, depth + 1) if ev(f, c[0], env, locals_, depth + 1) else ev(f, c[2], env, locals_, depth + 1)
     if k == "CallExpr" and e.get("cname") == "__builtin_expect":
         return ev(f, c[1], env, locals_, depth + 1)
+    if k == "CallExpr" and e.get("callee") and not e.get("ext") and depth < 40:
+        # a pure integer helper of the library (`int from_hex_digit(char c)`): executed on the argument values
+        db = env.get("__db__") or facts.db_of(f)
+        h = db.fn(e["callee"]) if db is not None else None
+        if h is not None and h.get("body") and not h.get("rec") and len(h.get("params", ())) == len(c) - 1 and \
+                (facts.tyi(h, h.get("ret")) or {}).get("k") in ("int", "bool", "enum"):
+            henv = dict((k_, v_) for k_, v_ in env.items() if isinstance(k_, str) and k_.startswith("__") and k_ not in ("__is_input__", "__input__", "__termfn__"))
+            for p_, a_ in zip(h["params"], c[1:]):
+                pt = facts.tyi(h, p_.get("t")) or {}
+                if pt.get("k") not in ("int", "bool", "enum"):
+                    raise Unknown("call %s with a non-integer argument" % e.get("cname"))
+                henv[p_["var"]] = wrap(ev(f, a_, env, locals_, depth + 1), pt)
+            r = run_body(h, h["body"], henv)
+            if r is None:
+                raise Unknown("call %s returned no value" % e.get("cname"))
+            return wrap(r, t)
     raise Unknown("expression kind %s `%s`" % (k, facts.expr_str(e)[:60]))
 
 
@@ -248,7 +273,7 @@ class _Stop(Exception):
     pass
 
 
-def trace(f, body, env, max_items=200):
+def trace(f, body, env, max_items=200, final=None):
     """Execute a loop-free statement tree under env (as run_body) and return the list of 'effect' statements met, in order,
     as (kind, node): kind in call / assign / break / return / throw / other.  Conditions are evaluated with ev(); integer
     locals declared on the way join the environment.  Stops at the first break / return / throw."""
@@ -336,4 +361,6 @@ def trace(f, body, env, max_items=200):
         go(body)
     except _Stop:
         pass
+    if final is not None:
+        final.update(st)
     return out
